@@ -653,6 +653,27 @@ func selfcheck(t *testing.T, c core.Cfg, part *core.Partial) {
 			part.Violations = append(part.Violations, core.ViolationRec{Class: v.Class, Detail: v.Detail, Replay: p})
 		}
 	}
+	if c.Property == "C06" && c.Mode != "race" && c.Worker == 6%int(core.EnvInt("VERIF_WORKERS", 1)) {
+		// a foreign import without "as": the importer cannot be set up without an application
+		// name - the compile must fail and say which import that was
+		for k, path := range []string{"f1.yaml", "apis/f1.json"} {
+			w := &Workload{Family: "plain", Template: fmt.Sprintf("selfcheck-foreign-without-as-%d", k), Files: []*FileSpec{
+				{ID: 0, Path: "f0.sysl", Kind: "sysl", Imports: []ImportSpec{{To: 2, Spell: "f2"}, {To: 1, Spell: path}}},
+				{ID: 1, Path: path, Kind: "swagger"},
+				{ID: 2, Path: "f2.sysl", Kind: "sysl"}}}
+			for _, f := range w.Files {
+				f.Text = render(w, f)
+			}
+			w.Faults = []Fault{{File: 1, Kind: "bad-foreign", Certain: true}} // "bad" here: unusable as imported
+			o := Execute(t, w, core.First{}, 100000)
+			part.Counters.Inc("selfcheck_foreign_import_without_as")
+			for _, v := range Check(w, Model(w), o, nil, true) {
+				p := writeReplay(c, found{v: v, w: w, picks: o.Picks, o: o}, true, 0)
+				part.Violations = append(part.Violations, core.ViolationRec{Class: v.Class, Detail: v.Detail, Replay: p})
+				break
+			}
+		}
+	}
 	if c.Property == "C06" && c.Mode != "race" && c.Worker == 5%int(core.EnvInt("VERIF_WORKERS", 1)) {
 		// foreign files cut down to nothing, or to white space: no format can be detected
 		k := 0
